@@ -36,6 +36,8 @@ enum Op {
     PollsAfterExhaustion,
     ForLoop,
     RevCollect,
+    /// a std adaptor chain applied through `by_ref()` (kind, argument)
+    Adapt(u8, usize),
 }
 
 impl Op {
@@ -58,6 +60,7 @@ impl Op {
             Op::PollsAfterExhaustion => "exhausted_polls",
             Op::ForLoop => "for_loop",
             Op::RevCollect => "rev_collect",
+            Op::Adapt(..) => "adaptor",
         }
     }
 }
@@ -122,6 +125,97 @@ fn check_state<E: Elem, N: ArrayLength>(l: &Live<E, N>) -> Result<(), String> {
     Ok(())
 }
 
+/// The model as an iterator that implements ONLY the basic protocol (next / next_back / exact
+/// size_hint); every other method is std's default built on those.  GenericArrayIter overrides
+/// nth, nth_back, fold, rfold, count, last, size_hint/len: feeding both through the same std
+/// adaptor chain makes std's own adaptors the differential oracle for the overrides and for the
+/// state they leave behind.
+struct ModelIt<'a>(&'a mut VecDeque<u64>);
+impl<'a> Iterator for ModelIt<'a> {
+    type Item = u64;
+    fn next(&mut self) -> Option<u64> {
+        self.0.pop_front()
+    }
+    fn size_hint(&self) -> (usize, Option<usize>) {
+        (self.0.len(), Some(self.0.len()))
+    }
+}
+impl<'a> DoubleEndedIterator for ModelIt<'a> {
+    fn next_back(&mut self) -> Option<u64> {
+        self.0.pop_back()
+    }
+}
+impl<'a> ExactSizeIterator for ModelIt<'a> {}
+
+pub const ADAPT_KINDS: u8 = 22;
+
+/// run adaptor chain `kind` with argument `k` over any iterator of keys
+fn adapt<I: Iterator<Item = u64> + DoubleEndedIterator + ExactSizeIterator>(mut it: I, kind: u8, k: usize) -> Vec<u64> {
+    let s = k % 3 + 1;
+    let some = |o: Option<u64>| o.map_or(vec![u64::MAX], |x| vec![x]);
+    let num = |o: Option<usize>| o.map_or(vec![u64::MAX], |x| vec![x as u64]);
+    match kind {
+        0 => it.by_ref().take(k).collect(),
+        1 => some(it.by_ref().skip(k).next()),
+        2 => it.by_ref().step_by(s).take(k).collect(),
+        3 => it.by_ref().rev().take(k).collect(),
+        4 => some(it.by_ref().rev().skip(k).next()),
+        5 => {
+            let mut c = 0;
+            num(it.by_ref().position(|_| {
+                c += 1;
+                c > k
+            }))
+        }
+        6 => {
+            let mut c = 0;
+            num(it.by_ref().rposition(|_| {
+                c += 1;
+                c > k
+            }))
+        }
+        7 => {
+            let r: Result<u64, u64> = it.by_ref().try_fold(0u64, |acc, x| if acc as usize == k { Err(x) } else { Ok(acc + 1) });
+            vec![r.map_or_else(|x| x, |a| a ^ (1 << 63))]
+        }
+        8 => {
+            let r: Result<u64, u64> = it.by_ref().try_rfold(0u64, |acc, x| if acc as usize == k { Err(x) } else { Ok(acc + 1) });
+            vec![r.map_or_else(|x| x, |a| a ^ (1 << 63))]
+        }
+        9 => some(it.by_ref().take(k).reduce(|a, b| a.wrapping_mul(31).wrapping_add(b))),
+        10 => it.by_ref().zip(0..k).map(|(x, _)| x).collect(),
+        11 => {
+            let mut p = it.by_ref().peekable();
+            let mut out = vec![];
+            for _ in 0..k.min(3) {
+                out.extend(p.next());
+            }
+            out.extend(p.peek().copied()); // the peeked element is lost with the adaptor
+            out
+        }
+        12 => it.by_ref().rev().step_by(s).take(k).collect(),
+        13 => it.by_ref().skip(k).rev().take(2).collect(), // Skip's back half trusts len()
+        14 => it.by_ref().take(k).rev().collect(),         // Take's back half uses len() and nth_back
+        15 => it.by_ref().enumerate().rev().take(k).map(|(i, x)| x ^ ((i as u64) << 48)).collect(), // indices come from len()
+        16 => some(it.by_ref().take(k).last()),
+        17 => num(Some(it.by_ref().skip(k).count())),
+        18 => some(it.by_ref().take(k + 1).max_by_key(|x| x.rotate_left(17))),
+        19 => it.by_ref().skip(1).step_by(s).rev().take(k).collect(), // StepBy's back half computes with len()
+        20 => {
+            let (a, b): (Vec<u64>, Vec<u64>) = it.by_ref().take(k + 2).partition(|x| x % 2 == 0);
+            a.into_iter().chain(b).collect()
+        }
+        _ => {
+            // chunks of the remaining elements taken alternately from both ends through nth / nth_back
+            let mut out = vec![];
+            out.extend(it.by_ref().nth(k % 2));
+            out.extend(it.by_ref().rev().nth(k % 3));
+            out.extend(it.by_ref().skip(k % 2).step_by(2).next());
+            out
+        }
+    }
+}
+
 /// Apply a non-consuming operation to the iterator and the model.
 fn step<E: Elem, N: ArrayLength>(l: &mut Live<E, N>, op: Op) -> Result<(), String> {
     match op {
@@ -154,6 +248,13 @@ fn step<E: Elem, N: ArrayLength>(l: &mut Live<E, N>, op: Op) -> Result<(), Strin
             }
         }
         Op::Len | Op::AsSlice => {}
+        Op::Adapt(kind, k) => {
+            let got = adapt((&mut l.it).map(|e| e.key()), kind, k);
+            let want = adapt(ModelIt(&mut l.model), kind, k);
+            if got.len() != want.len() || (E::KEYED && got != want) {
+                return Err(format!("AdaptorMismatch: adaptor chain {kind}({k}) yields {got:x?} on the iterator, {want:x?} on a queue"));
+            }
+        }
         Op::MutWrite(i) => {
             let s = l.it.as_mut_slice();
             if s.len() != l.model.len() {
@@ -567,6 +668,11 @@ fn ops_for(len: usize) -> Vec<Op> {
     for i in 0..len.max(1) {
         v.push(Op::MutWrite(i));
     }
+    for kind in 0..ADAPT_KINDS {
+        for k in 0..=len + 1 {
+            v.push(Op::Adapt(kind, k));
+        }
+    }
     v.extend([Op::Clone, Op::Fold, Op::RFold, Op::Count, Op::Last, Op::DropIt, Op::ForLoop, Op::RevCollect]);
     v
 }
@@ -735,8 +841,9 @@ fn part_b<E: Elem + Clone, N: ArrayLength>(st: &mut Stats, seed: u64, runs: u64)
                 };
                 let choice = rng.below(100);
                 let op = match choice {
-                    0..=17 => Op::Next,
-                    18..=35 => Op::NextBack,
+                    0..=11 => Op::Next,
+                    12..=23 => Op::NextBack,
+                    24..=35 => Op::Adapt(rng.below(ADAPT_KINDS as usize) as u8, rng.below(len + 2)),
                     36..=49 => Op::Nth(big(&mut rng)),
                     50..=63 => Op::NthBack(big(&mut rng)),
                     64..=69 => Op::MutWrite(rng.below(len.max(1))),
